@@ -147,11 +147,11 @@ func imageDigest(im image.Image) string {
 	switch t := im.(type) {
 	case *image.NRGBA:
 		for y := b.Min.Y; y < b.Max.Y; y++ {
-			h.Write(t.Pix[t.PixOffset(b.Min.X, y):t.PixOffset(b.Max.X-1, y)+4])
+			h.Write(t.Pix[t.PixOffset(b.Min.X, y) : t.PixOffset(b.Max.X-1, y)+4])
 		}
 	case *image.RGBA:
 		for y := b.Min.Y; y < b.Max.Y; y++ {
-			h.Write(t.Pix[t.PixOffset(b.Min.X, y):t.PixOffset(b.Max.X-1, y)+4])
+			h.Write(t.Pix[t.PixOffset(b.Min.X, y) : t.PixOffset(b.Max.X-1, y)+4])
 		}
 	case *image.YCbCr:
 		for y := b.Min.Y; y < b.Max.Y; y++ {
@@ -375,14 +375,14 @@ func makeOverlay(repo, dir string) (string, map[string]int, error) {
 	return op, stats, os.WriteFile(op, js, 0o644)
 }
 
-func runWorker(bin string, c *Ctx, streams string) (map[string]string, []string, string, error) {
+func runWorker(bin string, seed int64, tier, streams string) workerOut {
 	cmd := exec.Command(bin)
-	cmd.Env = append(os.Environ(), "C13_MODE=pipeline", fmt.Sprintf("C13_SEED=%d", c.Seed), "C13_TIER="+c.Tier, "C13_STREAMS="+streams)
+	cmd.Env = append(os.Environ(), "C13_MODE=pipeline", fmt.Sprintf("C13_SEED=%d", seed), "C13_TIER="+tier, "C13_STREAMS="+streams)
 	var stderr bytes.Buffer
 	cmd.Stderr = &stderr
 	outb, err := cmd.Output()
 	if err != nil {
-		return nil, nil, "", fmt.Errorf("%v: %s", err, stderr.String())
+		return workerOut{err: fmt.Errorf("%v: %s", err, stderr.String())}
 	}
 	res := map[string]string{}
 	var order []string
@@ -396,41 +396,82 @@ func runWorker(bin string, c *Ctx, streams string) (map[string]string, []string,
 			hdr = l
 		}
 	}
-	return res, order, hdr, nil
+	return workerOut{res, order, hdr, nil}
 }
 
-func pipeline(c *Ctx) {
-	repo := os.Getenv("VERIF_REPO")
-	if repo == "" {
-		repo = "/repo"
-	}
+type workerOut struct {
+	res   map[string]string
+	order []string
+	hdr   string
+	err   error
+}
+
+type overlayWork struct {
+	done     chan struct{}
+	stats    map[string]int
+	err      error  // overlay construction
+	buildOut string // non-empty: the overlay build failed
+	normal   workerOut
+	portable workerOut
+}
+
+// overlayStart runs, in the background: the pipeline worker of this (normal)
+// build; the construction of the overlay, the build of the portable harness
+// binary from it, and that binary's pipeline worker.
+func overlayStart(c *Ctx) *overlayWork {
+	w := &overlayWork{done: make(chan struct{})}
+	portable := filepath.Join(c.OutDir, "h_portable")
 	verif := os.Getenv("VERIF_DIR")
 	if verif == "" {
 		verif = "/verif"
 	}
-	ovDir := "/tmp/arch-overlay"
-	defer os.RemoveAll(ovDir)
-	ov, stats, err := makeOverlay(repo, ovDir)
-	if err != nil {
-		c.Violate("pipeline:overlay", "cannot construct the portable overlay: "+err.Error(), nil)
-		return
-	}
-	for k, v := range stats {
-		c.D.Distribution["overlay/"+k] += v
-	}
-	self, _ := os.Executable()
-	portable := filepath.Join(c.OutDir, "h_portable")
-	cmd := exec.Command("go", "build", "-tags", "verif", "-overlay", ov, "-o", portable, "./c13")
-	cmd.Dir = filepath.Join(verif, "harness")
-	if outb, err := cmd.CombinedOutput(); err != nil {
-		c.Violate("build:portable-overlay", "the module does not build without its architecture-specific files (amd64/arm64 files removed, !amd64 files un-constrained)",
-			map[string]any{"compiler_output": string(outb)})
-		return
-	}
 	streams := filepath.Join(c.OutDir, "streams.txt")
 	writeStreams(c, streams)
-	nres, order, nh, err1 := runWorker(self, c, streams)
-	pres, _, ph, err2 := runWorker(portable, c, streams)
+	seed, tier := c.Seed, c.Tier
+	self, _ := os.Executable()
+	go func() {
+		defer close(w.done)
+		nd := make(chan struct{})
+		go func() {
+			defer close(nd)
+			w.normal = runWorker(self, seed, tier, streams)
+		}()
+		defer func() { <-nd }()
+		ovDir := "/tmp/arch-overlay"
+		defer os.RemoveAll(ovDir)
+		ov, stats, err := makeOverlay(repoDir(), ovDir)
+		w.stats, w.err = stats, err
+		if err != nil {
+			return
+		}
+		cmd := exec.Command("go", "build", "-tags", "verif", "-overlay", ov, "-o", portable, "./c13")
+		cmd.Dir = filepath.Join(verif, "harness")
+		if outb, err := cmd.CombinedOutput(); err != nil {
+			w.buildOut = string(outb) + " " + err.Error()
+			return
+		}
+		w.portable = runWorker(portable, seed, tier, streams)
+	}()
+	return w
+}
+
+func pipeline(c *Ctx, w *overlayWork) {
+	<-w.done
+	if w.err != nil {
+		c.Violate("pipeline:overlay", "cannot construct the portable overlay: "+w.err.Error(), nil)
+		return
+	}
+	for k, v := range w.stats {
+		c.Count("overlay/" + k)
+		c.D.Distribution["overlay/"+k] += v - 1
+	}
+	if w.buildOut != "" {
+		c.Violate("build:portable-overlay", "the module does not build without its architecture-specific files (amd64/arm64 files removed, !amd64 files un-constrained)",
+			map[string]any{"compiler_output": tail(w.buildOut, 3000)})
+		return
+	}
+	nres, order, nh, err1 := w.normal.res, w.normal.order, w.normal.hdr, w.normal.err
+	pres, ph, err2 := w.portable.res, w.portable.hdr, w.portable.err
 	if err1 != nil || err2 != nil {
 		c.Violate("pipeline:worker", fmt.Sprintf("pipeline worker failed: normal=%v portable=%v", err1, err2), nil)
 		return
@@ -444,6 +485,12 @@ func pipeline(c *Ctx) {
 		a, b := nres[name], pres[name]
 		c.D.Evaluations++
 		kind := strings.SplitN(strings.TrimPrefix(strings.TrimPrefix(name, "case "), "stream "), "/", 2)[0]
+		if strings.HasPrefix(name, "stream ") {
+			kind = "stream-" + strings.SplitN(kind, ":", 2)[1]
+			if !strings.HasPrefix(a, "dec=") || !strings.HasPrefix(b, "dec=") {
+				c.Violate("pipeline:stream-not-decodable", "a hand-assembled VP8 stream is rejected by the decoder (generator out of date?)", map[string]any{"case": name, "normal": a, "portable": b})
+			}
+		}
 		if a == b {
 			c.Count("pipeline/" + kind + "/identical")
 			c.Nontrivial("pipeline/" + name)
@@ -452,9 +499,21 @@ func pipeline(c *Ctx) {
 		c.Count("pipeline/" + kind + "/DIFFERENT")
 		key := "pipeline-diff:" + kind
 		if strings.HasPrefix(name, "stream ") {
-			key = "pipeline-diff:stream:" + strings.SplitN(strings.TrimPrefix(name, "stream "), ":", 2)[1]
+			// "stream <i>:<class>/<detail>"
+			cl := strings.SplitN(strings.TrimPrefix(name, "stream "), ":", 2)[1]
+			key = "pipeline-diff:stream:" + strings.SplitN(cl, "/", 2)[0]
 		}
-		c.Violate(key, "normal (assembly) build and portable overlay build produce different results", map[string]any{"case": name, "normal": a, "portable": b})
+		rp := map[string]any{"case": name, "normal": a, "portable": b,
+			"how": "two harness binaries built from the same tree (normal; go build -overlay with every amd64/arm64 file removed and the !amd64 files un-constrained) ran the same case"}
+		if strings.HasPrefix(name, "stream ") {
+			var idx int
+			fmt.Sscanf(strings.TrimPrefix(name, "stream "), "%d:", &idx)
+			if ss := adversarialStreams(); idx < len(ss) {
+				rp["webp_file_hex"] = hex.EncodeToString(ss[idx].data)
+				rp["note"] = "valid 16x16 VP8 key frame (one i16/DC_PRED macroblock) whose dequantised coefficients int16(level*dq) leave the no-wrap range of the SSE2/AVX2 inverse WHT / IDCT: webp.Decode returns different pixels on amd64 and on a build without assembly"
+			}
+		}
+		c.Violate(key, "normal (assembly) build and portable overlay build produce different results", rp)
 	}
 	if len(order) > 0 {
 		c.Sample(map[string]any{"pipeline_case": order[0], "normal": nres[order[0]], "portable": pres[order[0]]})
